@@ -8,12 +8,12 @@ L = os.path.join(REPO, "libs", "pika")
 DRIVERS = os.path.join(core.VERIF, "drivers")
 
 
-def facts(rep, tu, sels, recs=(), extra=(), calls=()):
+def facts(rep, tu, sels, recs=(), extra=(), calls=(), flatten=()):
     if not os.path.exists(tu):
         raise AnalysisBroken("translation unit missing: %s" % tu)
     raw = core.extract(tu, list(sels), list(recs), list(extra), calls=list(calls))
     rep.tus.add(tu + (" [" + " ".join(extra) + "]" if extra else ""))
-    return Facts(raw)
+    return Facts(raw, flatten)
 
 
 def lib(mod, rel):
